@@ -225,7 +225,7 @@ def fxp_like(x, val=None):
         New Fxp object like `x`.
 
     '''
-    y = x.copy()
+    y = x.deepcopy()    # (an independent object: it shares no configuration or status with `x`)
     return y(val)
 
 def fxp_sum(x, sizes='best_sizes', axis=None, dtype=None, out=None, vdtype=None):
